@@ -2,3 +2,14 @@
 from vlib.props import convprops as P, convcommon as cc
 from vlib import convgen as g
 globals().update(P.make('C04', 'conv probe: generic sweep (every letter of the command alphabet after 12 prefixes x configurations incl. TLS), random walks under {one segment, line per segment, byte per segment, random cuts}; the whole reply stream is parsed with a strict RFC 5321 recogniser, codes and enhanced codes compared exactly with the model. non-trivial = at least one backend callback', ['render_wellformed (pending)'], None, lambda a: cc.project(a, codes='exact', enh=True, drecs='ret'), tls=True, configs=None))
+
+# --- schedules: a slow delivery of an aborted transfer completing before/after the next transaction -------------
+from vlib.core import Group as _Group
+from vlib.props import C20 as _C20
+_g0 = groups
+RULE = RULE + " | sched probe: every order of {aborted delivery completes, next transaction arrives, its delivery completes} (see C20)"
+
+
+def groups(tier, rng):
+    sc = [c for c in _C20.sched_cases(tier, rng) if not c.endswith("TAG=lifecycle")]
+    return _g0(tier, rng) + [_Group("sched/delivery-orders", sc, project=_C20.project, theorems=THEOREMS)]
